@@ -107,6 +107,89 @@ def enumerate_scenario(binpath, env, d, prepare, op, arg):
     return {"points": len(points), "covered": covered, "verdicts": verdicts, "old_ne_new": old != new, "samples": samples}
 
 
+def honoured(dump):
+    """the lines of a state dump whose token has not expired"""
+    keep = []
+    now = time.strftime("%Y-%m-%dT%H:%M:%SZ", time.gmtime())
+    for l in dump.splitlines():
+        if not l.startswith("TOK "):
+            continue
+        try:
+            t = json.loads(l[4:])
+        except Exception:
+            keep.append(l)
+            continue
+        exp = t.get("expires")
+        if exp is not None and exp[:19] + "Z" < now:
+            continue
+        keep.append(l)
+    return "\n".join(sorted(keep))
+
+
+def enumerate_faults(binpath, env, d, prepare, op, arg):
+    """Like enumerate_scenario, but the syscall fails with an error instead of the process being killed; the process goes
+    on, and afterwards the tokens it honours must be the ones a fresh process reads from the file (old or new set)."""
+    trace = os.path.join(d, "..", "trace.txt")
+    st = ["strace", "-f", "-o", trace, "-e", "trace=%file,%desc,write"]
+    fenv = dict(env, VERIF_HELPER_FAULT="1")
+    prepare(d)
+    old = load(binpath, env, d)
+    if old.startswith("ERR:"):
+        return {"error": "initial state unreadable: " + old}
+    p = helper(binpath, fenv, d, op, arg, strace=st)
+    if p.returncode != 0 or "MEMDONE" not in p.stdout:
+        return {"error": "calibration run failed: " + (p.stdout + p.stderr)[-400:]}
+    ev = parse_trace(trace)
+    bs = [i for i, e in enumerate(ev) if "verif-marker-begin" in e[2]]
+    es = [i for i, e in enumerate(ev) if "verif-marker-end" in e[2]]
+    if not bs or not es:
+        return {"error": "markers not found in trace"}
+    b, e_ = bs[0], es[0]
+    tid = ev[b][0]
+    new = load(binpath, env, d)
+    counts = {}
+    points = []
+    for i, (t, sc, l) in enumerate(ev):
+        if t != tid:
+            continue
+        counts[sc] = counts.get(sc, 0) + 1
+        if b < i < e_ and sc in MUT and sc != "close" and not (sc in ("openat", "open") and "O_RDONLY" in l and "O_CREAT" not in l):
+            points.append((sc, counts[sc], l[:110]))
+    res = {"points": 0, "op_failed": 0, "verdicts": {"old": 0, "new": 0}, "samples": [], "old_ne_new": old != new}
+    for sc, k, l in points:
+        for errno in (["ENOSPC", "EIO"] if sc not in ("openat", "open") else ["EMFILE", "ENOSPC"]):
+            prepare(d)
+            p = helper(binpath, fenv, d, op, arg, strace=st + ["-e", "inject=%s:error=%s:when=%d" % (sc, errno, k)])
+            out = p.stdout
+            res["points"] += 1
+            if "MEMERR" in out or "MEMDONE" not in out:
+                if "panic" in (out + p.stderr):
+                    return dict(res, violation="the process died after %s failed with %s [%s]: %s" % (sc, errno, l[6:90], (out + p.stderr)[-300:]), point=[sc, k, errno])
+                return dict(res, violation="after %s#%d failed with %s [%s] the running process cannot read its own token file: %s" % (sc, k, errno, l[6:90], out[-300:]), point=[sc, k, errno])
+            mem = "\n".join("TOK " + x[4:] for x in out.splitlines() if x.startswith("MEM "))
+            # "honours": a token past its expiry authorises nowhere, whether or not a failed sweep still lists it
+            mem_h, state_h = honoured(mem), None
+            failed = "OPRESULT err=true" in out
+            res["op_failed"] += failed
+            state = load(binpath, env, d)
+            if state == old:
+                v = "old"
+            elif state == new:
+                v = "new"
+            else:
+                return dict(res, violation="after %s#%d failed with %s [%s] a fresh process reads neither the old nor the new set: %s" % (sc, k, errno, l[6:90], state[:300]), point=[sc, k, errno])
+            res["verdicts"][v] += 1
+            state_h = honoured(state)
+            if mem_h != state_h:
+                return dict(res, violation="after %s#%d failed with %s [%s] (operation reported %s) the running process honours a different set than a freshly started one reads from the file:\n running: %s\n fresh:   %s"
+                            % (sc, k, errno, l[6:90], "an error" if failed else "success", mem[:300].replace("\n", " | "), state[:300].replace("\n", " | ")), point=[sc, k, errno])
+            if not failed and v == "old" and old != new:
+                return dict(res, violation="after %s#%d failed with %s the operation reported success but the file holds the old set" % (sc, k, errno), point=[sc, k, errno])
+            if len(res["samples"]) < 4:
+                res["samples"].append({"failing_syscall": "%s #%d -> %s" % (sc, k, errno), "syscall": l[6:100], "operation_reported_error": failed, "file_and_running_process_agree_on": v})
+    return res
+
+
 def token_line(name, group="g", perms=("present",), exp="2040-01-01T00:00:00Z", pad=""):
     d = {"token": name, "group": group, "permissions": list(perms), "expires": exp}
     if pad:
@@ -174,8 +257,16 @@ def run_crashenum(work, binpath, tier, seed, env, unit, replay):
     log = []
     nscen = 0
     scen_nontrivial = 0
+    fault_mode = unit.get("mode") == "fault"
+    fault_points = fault_failed = 0
     for sc in gen(rng, n):
-        r = enumerate_scenario(binpath, env, d, sc["prepare"], sc["op"], sc["arg"])
+        if fault_mode:
+            r = enumerate_faults(binpath, env, d, sc["prepare"], sc["op"], sc["arg"])
+            fault_points += r.get("points", 0)
+            fault_failed += r.get("op_failed", 0)
+            r.setdefault("covered", r.get("points", 0))
+        else:
+            r = enumerate_scenario(binpath, env, d, sc["prepare"], sc["op"], sc["arg"])
         nscen += 1
         log.append("%s: %s" % (sc["desc"], {k: v for k, v in r.items() if k != "samples"}))
         if "error" in r:
@@ -209,5 +300,16 @@ def run_crashenum(work, binpath, tier, seed, env, unit, replay):
         "rule": "crash-point enumeration: generated before-states x operations; SIGKILL injected by strace before each mutating syscall of the operation's thread between two "
                 "marker syscalls; a fresh process must read exactly the old or the new state; non-trivial = crash point of an operation whose old and new states differ",
     }
+    if fault_mode:
+        res["coverage_extra"] = {
+            "fault_scenarios": nscen, "fault_points": fault_points, "operations_that_reported_an_error": fault_failed,
+            "file_and_running_process_agree_on_old": verd["old"], "file_and_running_process_agree_on_new": verd["new"],
+            "extra_evaluations": fault_points, "extra_distinct_nontrivial": fault_failed,
+            "samples": samples,
+            "rule": "fault-point enumeration: generated before-states x operations; every mutating syscall of the operation's thread between two marker syscalls is made to fail "
+                    "(ENOSPC/EIO, EMFILE for open) by strace, one at a time, and the process goes on; afterwards the tokens the running process honours must equal what a fresh "
+                    "process reads from the file, which must be the complete old or new set; an operation that reported success must have taken effect; non-trivial = the "
+                    "operation reported the error",
+        }
     shutil.rmtree(os.path.join(work, "crash"), ignore_errors=True)
     return res
